@@ -12,7 +12,7 @@ use std::sync::{Arc, RwLock};
 
 use self::prioritize_chess_moves::sort_chess_moves;
 
-type SearchNode = (u64, i16, i16); // position_hash, alpha, beta
+type SearchNode = (u64, i16, i16, u8, bool); // position_hash, alpha, beta, remaining depth, maximizing player
 type SearchResult = i16; // best_score
 
 mod prioritize_chess_moves;
@@ -175,7 +175,15 @@ fn alpha_beta_minimax(
     beta: i16,
     maximizing_player: bool,
 ) -> Result<i16, SearchError> {
-    let search_node = (board.current_position_hash(), alpha, beta);
+    // The position hash does not include the side to move, and a score is only valid for
+    // the remaining depth it was searched to: both are part of the cache key.
+    let search_node = (
+        board.current_position_hash(),
+        alpha,
+        beta,
+        depth,
+        maximizing_player,
+    );
     #[cfg(feature = "verif")]
     if crate::verif::search_observed() {
         crate::verif::search_event(crate::verif::SearchEvent::NodeEnter {
